@@ -192,7 +192,9 @@ func ruleUnrolledChains(r *rep.Report, p *load.Program) {
 		}
 	}
 	r.Check(n >= 12, "U-uniform-stages", cfg, "unrolled chains enumerated", "", fmt.Sprintf("%d chain instances uniform", n), fmt.Sprintf("only %d uniform chains found", n))
-	ruleReduceConstants(r, p)
+	// per-limb constants and borrow widths of reduce / barrettReduce: decided exactly (and independently of how the
+	// chains are spelled) by the polynomial identities of engine X
+	ruleExactModm(r, p)
 }
 
 // ruleReduceConstants: in the conditional subtraction of L and in the Barrett tail, stage i subtracts limb i of the modulus
